@@ -146,7 +146,8 @@ def models(which, quick):
     elif which == "C09":
         M += [("look_n6", True, False, dict(N=6, PRE=2), ["Lookahead"]),
               ("look_b12", True, False, dict(N=6, PRE=2, BSizes={1, 2}), ["Lookahead"]),
-              ("inflight", True, False, dict(N=5, PRE=2, KB=2), ["InFlightK"])]
+              # D9 (open finding): the design does not bound the batches in flight by the pre-dispatched number
+              ("D9_inflight", False, False, dict(N=5, PRE=2, KB=2), ["InFlightK"])]
         if not quick:
             M += [("look_n8_pre4", True, False, dict(N=8, PRE=4), ["Lookahead"]),
                   ("D9_n10", False, False, dict(N=10, PRE=2), ["Lookahead"])]
